@@ -256,4 +256,121 @@ theorem partLoop_lead {K : Type} (z : K) (permR : Array Int) (movnum : Bool) (xl
           simp only [hAf, Bool.not_false, if_true]
           exact ih lo (hi-1) ls lu e (by omega) hxl (by omega) (by omega) (by intro hm; have := hlu hm; omega) hlead k hk
       · simp [hlt]
+
+/-! ### dsnode_dfs.c -/
+open Slu.Struct
+
+/-- the subscripts `ls[first .. first+len)` as a list -/
+def segList (ls : Array Nat) (first len : Nat) : List Nat := (List.range len).map (fun t => ls.getD (first + t) 0)
+
+theorem segList_length (ls : Array Nat) (first len : Nat) : (segList ls first len).length = len := by simp [segList]
+
+theorem segList_eq_of {ls : Array Nat} {first : Nat} {acc : List Nat}
+    (h : ∀ t, t < acc.length → ls.getD (first + t) 0 = acc.getD t 0) : segList ls first acc.length = acc := by
+  apply List.ext_getElem
+  · simp [segList]
+  · intro t h1 h2
+    have := h t h2
+    simp only [segList, List.getElem_map, List.getElem_range]
+    rw [this]; simp [List.getD_eq_getElem?_getD, h2]
+
+theorem markerFilter_length_le (rows acc : List Nat) : acc.length ≤ (markerFilter rows acc).length := by
+  induction rows generalizing acc with
+  | nil => simp [markerFilter]
+  | cons r rs ih =>
+    simp only [markerFilter]
+    split
+    · exact ih acc
+    · have := ih (acc ++ [r]); simp at this; omega
+
+theorem markerFilter_append (a b acc : List Nat) : markerFilter (a ++ b) acc = markerFilter b (markerFilter a acc) := by
+  induction a generalizing acc with
+  | nil => simp [markerFilter]
+  | cons r rs ih =>
+    simp only [List.cons_append, markerFilter]
+    split <;> exact ih _
+
+theorem getD_setIfInBounds {α : Type} (a : Array α) (i k : Nat) (v d : α) :
+    (a.setIfInBounds i v).getD k d = if i = k ∧ i < a.size then v else a.getD k d := by
+  simp only [Array.getD_eq_getD_getElem?, Array.getElem?_setIfInBounds]
+  by_cases h : i = k
+  · subst h; by_cases h2 : i < a.size <;> simp [h2]
+  · simp [h]
+
+/-- invariant of the marker loop of dsnode_dfs.c:86-96 -/
+structure SnodeInv (kcol first m L : Nat) (ls0 : Array Nat) (mk0 : Array Int) (st : SnodeSt) (acc : List Nat) : Prop where
+  nextl : st.nextl = first + acc.length
+  seg : ∀ t, t < acc.length → st.lsub.getD (first + t) 0 = acc.getD t 0
+  mark : ∀ r, r < m → (st.marker.getD r EMPTY = (kcol : Int) ↔ r ∈ acc)
+  mark_else : ∀ r, r ∉ acc → st.marker.getD r EMPTY = mk0.getD r EMPTY
+  msize : st.marker.size = m
+  lsize : st.lsub.size = L
+  frame : ∀ k, k < first ∨ first + acc.length ≤ k → st.lsub.getD k 0 = ls0.getD k 0
+
+theorem snodeVisit_fold (kcol first m L : Nat) (ls0 : Array Nat) (mk0 : Array Int) :
+    ∀ (rows : List Nat) (st : SnodeSt) (acc : List Nat), SnodeInv kcol first m L ls0 mk0 st acc →
+      (∀ r ∈ rows, r < m) → first + (markerFilter rows acc).length ≤ L →
+      SnodeInv kcol first m L ls0 mk0 (rows.foldl (snodeVisit kcol) st) (markerFilter rows acc) ∧
+      (rows.foldl (snodeVisit kcol) st).supno = st.supno := by
+  intro rows
+  induction rows with
+  | nil => intro st acc h _ _; exact ⟨by simpa [markerFilter] using h, rfl⟩
+  | cons r rs ih =>
+    intro st acc h hr hcap
+    have hrm : r < m := hr r (List.mem_cons_self ..)
+    simp only [List.foldl_cons, markerFilter] at hcap ⊢
+    by_cases hc : acc.contains r = true
+    · have hmem : r ∈ acc := by simpa using hc
+      have hv : snodeVisit kcol st r = st := by
+        unfold snodeVisit
+        have := (h.mark r hrm).2 hmem
+        simp [this]
+      rw [hv]; simp only [hc, if_true] at hcap ⊢
+      exact ih st acc h (fun x hx => hr x (List.mem_cons_of_mem _ hx)) hcap
+    · have hmem : r ∉ acc := by simpa using hc
+      simp only [hc, Bool.false_eq_true, if_false] at hcap ⊢
+      have hlen := markerFilter_length_le rs (acc ++ [r])
+      simp only [List.length_append, List.length_singleton] at hlen
+      have hne : st.marker.getD r EMPTY ≠ (kcol : Int) := fun e => hmem ((h.mark r hrm).1 e)
+      have hb : (st.marker.getD r EMPTY != (kcol : Int)) = true := by simpa [bne_iff_ne] using hne
+      have hv : snodeVisit kcol st r = { st with marker := st.marker.setIfInBounds r kcol, lsub := st.lsub.setIfInBounds st.nextl r, nextl := st.nextl + 1 } := by
+        unfold snodeVisit; rw [if_pos hb]
+      rw [hv]
+      have hnl : st.nextl < st.lsub.size := by rw [h.nextl, h.lsize]; omega
+      have hinv : SnodeInv kcol first m L ls0 mk0 { st with marker := st.marker.setIfInBounds r kcol, lsub := st.lsub.setIfInBounds st.nextl r, nextl := st.nextl + 1 } (acc ++ [r]) := by
+        refine ⟨by simp [h.nextl]; omega, ?_, ?_, ?_, by simp [h.msize], by simp [h.lsize], ?_⟩
+        · intro t ht
+          simp only [List.length_append, List.length_singleton] at ht
+          show (st.lsub.setIfInBounds st.nextl r).getD (first + t) 0 = _
+          rw [getD_setIfInBounds]
+          by_cases e : t = acc.length
+          · subst e
+            rw [if_pos ⟨h.nextl, hnl⟩]
+            simp [List.getD_eq_getElem?_getD]
+          · have ht' : t < acc.length := by omega
+            have hne2 : ¬ (st.nextl = first + t ∧ st.nextl < st.lsub.size) := by rw [h.nextl]; omega
+            rw [if_neg hne2, h.seg t ht']
+            simp [List.getD_eq_getElem?_getD, List.getElem?_append_left ht']
+        · intro r' hr'
+          show (st.marker.setIfInBounds r kcol).getD r' EMPTY = _ ↔ _
+          rw [getD_setIfInBounds]
+          simp only [List.mem_append, List.mem_singleton]
+          by_cases e : r = r'
+          · subst e; rw [if_pos ⟨rfl, by rw [h.msize]; exact hrm⟩]; simp
+          · rw [if_neg (fun hh => e hh.1), h.mark r' hr']
+            constructor
+            · intro h1; exact Or.inl h1
+            · rintro (h1 | h1); exact h1; exact absurd h1.symm e
+        · intro r' hr'
+          simp only [List.mem_append, List.mem_singleton, not_or] at hr'
+          show (st.marker.setIfInBounds r kcol).getD r' EMPTY = _
+          rw [getD_setIfInBounds, if_neg (fun hh => hr'.2 hh.1.symm)]
+          exact h.mark_else r' hr'.1
+        · intro k hk
+          simp only [List.length_append, List.length_singleton] at hk
+          show (st.lsub.setIfInBounds st.nextl r).getD k 0 = _
+          rw [getD_setIfInBounds, if_neg (by rw [h.nextl]; omega)]
+          exact h.frame k (by omega)
+      have := ih _ (acc ++ [r]) hinv (fun x hx => hr x (List.mem_cons_of_mem _ hx)) hcap
+      exact ⟨this.1, this.2⟩
 end Slu.SymbArr
